@@ -182,7 +182,9 @@ func (cf *CloudflarePublisher) PublishECH(ctx context.Context, records []Target,
 		var newParams []string
 		var oldValue string
 		for _, p := range params {
-			if k, v, ok := strings.Cut(p, "="); ok && k == "ech" {
+			// The key may come without a value: "ech" is "ech=" (RFC 9460
+			// Section 2.1).
+			if k, v, _ := strings.Cut(p, "="); k == "ech" {
 				oldValue = strings.Trim(v, `"`)
 				continue
 			}
